@@ -83,3 +83,259 @@ def c01_inclusion(world, rec, acc, ctx):
         acc.sample({'config': world.config(), 'job': rec_summary(rec),
                     'pairs_checked': inclusion_pairs(
                         list(rec['after'].refs))})
+
+
+# ---------------------------------------------------------------------------
+# harness knowledge about waivers (who said what; never Bert-E's own words)
+def addressed_keywords(text):
+    """keywords of a comment addressed to the robot in one of the forms the
+    generator produces ('@robot kw', '@robot: kw', '/kw'); else []"""
+    t = text.strip()
+    if t.startswith('@' + ROBOT):
+        t = t[len(ROBOT) + 1:].lstrip(':')
+    elif t.startswith('/'):
+        t = t.replace('/', ' ')
+    else:
+        return []
+    for sep in ',.-:;|+':
+        t = t.replace(sep, ' ')
+    return [k.split('=')[0] for k in t.split()]
+
+
+def option_by_admin(world, snap, pr, option):
+    admins = [str(a) for a in world.settings_dict()['admins']]
+    for user, text in snap.comments.get(pr['id'], []):
+        if user in admins and user != pr['author'] and \
+                option in addressed_keywords(text):
+            return True
+    return False
+
+
+def option_waived(world, snap, pr, option):
+    if option in world.cmd_line_options:
+        return True
+    pao = world.extra_settings.get('pr_author_options') or {}
+    if option in (pao.get(pr['author']) or []):
+        return True
+    return option_by_admin(world, snap, pr, option)
+
+
+def build_waived(world, snap, pr):
+    if not world.settings_dict().get('build_key'):
+        return True
+    return option_waived(world, snap, pr, 'bypass_build_status')
+
+
+def no_octopus_active(world, snap, prs):
+    if 'no_octopus' in world.cmd_line_options:
+        return True
+    for pr in prs:
+        for user, text in snap.comments.get(pr['id'], []):
+            if 'no_octopus' in addressed_keywords(text):
+                return True
+    return False
+
+
+def newly_merged(rec):
+    out = []
+    for p in rec['after'].prs:
+        b = rec['before'].pr(p['id'])
+        if b and b['state'] == 'OPEN' and p['state'] == 'MERGED' and \
+                p['author'] != ROBOT:
+            out.append(p)
+    return out
+
+
+def c03_green_destinations(world, rec, acc, ctx):
+    """Queue mode: a destination only advances to a commit whose status under
+    the build key is SUCCESSFUL in the host's table, unless forced / bypassed
+    direct merge."""
+    if world.queue_mode == 'noqueue':
+        return
+    key = world.settings_dict().get('build_key')
+    b, a = rec['before'], rec['after']
+    for name, (old, new) in sorted(moved_dests(rec).items()):
+        if old is None or new is None:
+            continue                      # creation / deletion, not an advance
+        acc.evals += 1
+        status = a.statuses.get((new, key), 'NOTSTARTED') if key else None
+        merged = newly_merged(rec)
+        direct = rec['status'] == 'SuccessMessage'
+        if rec['kind'] == 'force_merge_queues':
+            exempt = 'force-merge'
+        elif not key:
+            exempt = 'no-build-key'
+        elif direct and merged and all(build_waived(world, b, p)
+                                       for p in merged):
+            exempt = 'bypassed-direct-merge'
+        else:
+            exempt = None
+        nstab = len([n for n in a.refs if n.startswith('stabilization/')])
+        octo = 'no_octopus' if no_octopus_active(world, b, merged) else 'oct'
+        acc.count('c03_destination_advances')
+        acc.nontrivial('%s|%s|%s|%s|%s|n=%d|%s' % (
+            world.layout_name, world.queue_mode, octo,
+            'direct' if direct else rec['status'], exempt or 'checked',
+            len(merged), oracle.parse_dest(name)[0]))
+        if exempt:
+            acc.count('c03_exempt_' + exempt)
+            continue
+        acc.count('c03_advances_checked')
+        if status != 'SUCCESSFUL':
+            if direct and octo == 'no_octopus':
+                mech = 'direct-merge-no-octopus-lands-unbuilt-merge-commit'
+            elif direct:
+                mech = 'direct-merge-lands-non-green-commit'
+            elif nstab >= 2:
+                mech = 'queue-merge-non-green-commit-two-stabilization-paths'
+            else:
+                mech = 'queue-merge-lands-non-green-commit'
+            acc.violation(
+                mech, '%s(%s) -> %s moved %s to %s whose %r status is %s '
+                '(merged PRs %s, queue mode %s)' % (
+                    rec['kind'], rec['arg'], rec['status'], name, new[:10],
+                    key, status, [p['id'] for p in merged],
+                    world.queue_mode),
+                witness(world, rec, {'destination': name, 'new_tip': new,
+                                     'status': status}))
+        elif len(acc.samples) < 4:
+            acc.sample({'config': world.config(), 'job': rec_summary(rec),
+                        'destination': name, 'new_tip_status': status})
+
+
+FAILING = ('FAILED', 'STOPPED')
+PENDING = ('NOTSTARTED', 'INPROGRESS')
+
+
+def c06_build_gate(world, rec, acc, ctx):
+    """A PR that entered the queue / was merged directly in this job had a
+    green source tip and green integration tips (host table + the status
+    queries Bert-E made), unless waived; BuildFailed only with a failed tip;
+    pending builds are answered silently."""
+    key = world.settings_dict().get('build_key')
+    b, a = rec['before'], rec['after']
+    st = rec['status']
+    table = a.statuses
+
+    def status_of(sha):
+        return table.get((sha, key), 'NOTSTARTED')
+
+    if st == 'Queued':
+        ids = set()
+        for n in a.refs:
+            if n.startswith('q/w/') and n not in b.refs:
+                ids.add(int(n.split('/')[2]))
+        prs = [a.pr(i) for i in ids if a.pr(i)]
+    elif st == 'SuccessMessage':
+        prs = newly_merged(rec)
+    elif st in ('BuildFailed', 'BuildNotStarted', 'BuildInProgress'):
+        prs = []
+    else:
+        return
+    acc.evals += 1
+    names = list(a.refs)
+    if st in ('Queued', 'SuccessMessage'):
+        for pr in prs:
+            if build_waived(world, b, pr):
+                acc.count('c06_entries_waived')
+                continue
+            acc.count('c06_entries_checked')
+            tgts = oracle.targets(list(b.refs), pr['dst'])
+            src_tip = a.refs.get(pr['src']) or b.refs.get(pr['src'])
+            bad = []
+            if src_tip is None or status_of(src_tip) != 'SUCCESSFUL':
+                bad.append(('source', src_tip,
+                            src_tip and status_of(src_tip)))
+            green_q = [sha for (sha, k, ans) in rec['status_queries']
+                       if k == key and ans == 'SUCCESSFUL']
+            for t in tgts[1:]:
+                wn = oracle.wname(oracle.version_of(t), pr['src'])
+                if st == 'Queued':
+                    tip = a.refs.get(wn)
+                    if tip is None or status_of(tip) != 'SUCCESSFUL':
+                        bad.append((wn, tip, tip and status_of(tip)))
+                else:
+                    # direct merge: the w/ branch is gone; some commit that
+                    # Bert-E asked about and was answered green must sit
+                    # between (source tip, old target tip) and the new target
+                    old, new = b.refs.get(t), a.refs.get(t)
+                    ok = any(world.is_ancestor(src_tip, x) and
+                             world.is_ancestor(old, x) and
+                             world.is_ancestor(x, new) for x in green_q)
+                    if not ok:
+                        bad.append((wn, None, 'no green integration commit '
+                                    'was looked up for ' + t))
+            acc.nontrivial('%s|%s|%s|targets=%d' % (
+                world.layout_name, world.queue_mode, st, len(tgts)))
+            if bad:
+                acc.violation(
+                    'enters-queue-or-merges-with-non-green-integration-commit',
+                    'PR #%d %s although %s' % (pr['id'], st, bad),
+                    witness(world, rec, {'bad': bad}))
+            elif len(acc.samples) < 3:
+                acc.sample({'config': world.config(),
+                            'job': rec_summary(rec), 'pr': pr,
+                            'targets': tgts})
+        return
+    # refusals: find the evaluated PR by harness knowledge
+    pr = evaluated_pr(world, rec)
+    if pr is None:
+        acc.count('c06_refusal_pr_unknown')
+        return
+    tgts = oracle.targets(list(a.refs), pr['dst'])
+    tips = [a.refs.get(pr['src'])] + [
+        a.refs.get(oracle.wname(oracle.version_of(t), pr['src']))
+        for t in tgts[1:]]
+    if any(t is None for t in tips):
+        acc.count('c06_refusal_tips_incomplete')
+        return
+    sts = [status_of(t) for t in tips]
+    new_comments = len(a.comments.get(pr['id'], [])) - \
+        len(b.comments.get(pr['id'], []))
+    acc.count('c06_refusals_checked')
+    acc.nontrivial('%s|%s|%s|%s' % (world.layout_name, world.queue_mode, st,
+                                    ','.join(sorted(set(sts)))))
+    if st == 'BuildFailed' and not any(s in FAILING for s in sts):
+        acc.violation('build-failed-without-failed-tip',
+                      'PR #%d BuildFailed but integration tips are %s'
+                      % (pr['id'], sts), witness(world, rec))
+    if st in ('BuildNotStarted', 'BuildInProgress'):
+        if any(s in FAILING for s in sts):
+            acc.violation('failed-build-answered-silently',
+                          'PR #%d %s but integration tips are %s'
+                          % (pr['id'], st, sts), witness(world, rec))
+        elif not any(s in PENDING for s in sts):
+            acc.violation('waits-although-all-green',
+                          'PR #%d %s but integration tips are %s'
+                          % (pr['id'], st, sts), witness(world, rec))
+
+
+def evaluated_pr(world, rec):
+    """the parent PR an event is about, by harness knowledge (names)"""
+    b = rec['before']
+    if rec['kind'] in ('pr', 'eval_pr'):
+        p = b.pr(int(rec['arg']))
+        if p is None:
+            return None
+        if p['author'] == ROBOT:
+            src = p['src'].split('/', 2)[2] if p['src'].startswith('w/') \
+                else None
+            for q in b.prs:
+                if q['src'] == src and q['author'] != ROBOT:
+                    return q
+            return None
+        return p
+    if rec['kind'] == 'commit':
+        sha = world.resolve(rec['arg'])
+        names = [n for n, s in b.refs.items() if s == sha]
+        srcs = set()
+        for n in names:
+            if n.startswith('w/'):
+                srcs.add(n.split('/', 2)[2])
+            elif not n.startswith('q/'):
+                srcs.add(n)
+        cands = [q for q in b.prs if q['src'] in srcs and
+                 q['state'] == 'OPEN' and q['author'] != ROBOT]
+        if len(cands) == 1:
+            return cands[0]
+    return None
